@@ -2,14 +2,14 @@
 CHECK = {
  'level': 'exploration',
  'exhaustive': False,
- 'rule': 'history i (120 quick / 1500 thorough per part, i.e. 240 / 3000 over the two client models) = one user, 4 documents, 3 channels, 2 role names (the first role exists from the start, the second '
-         'in half of the histories) with identifiers carrying i, on a database shared by 10 histories (sequence batching suspended as in the repository\'s revocation tests; in every other database each write is followed by a wait for the change cache, in the others rapid principal rewrites leave skipped sequences and the resume tokens carry a low-sequence part); setup (roles, user with random admin_channels / '
+ 'rule': 'history i (120 quick / 1500 thorough per part, i.e. 240 / 3000 over the two client models) = one user, 4 documents, 3 channels plus now and then the all-documents channel "*" in admin and sync-function grants, 2 role names (the first role exists from the start, the second '
+         'in half of the histories) with identifiers carrying i, on a database shared by 10 histories (sequence batching suspended as in the repository\'s revocation tests; every write is followed by a wait for the change cache, so that no sequence is skipped and the run does not depend on feed timing); setup (roles, user with random admin_channels / '
          'admin_roles, 4 documents with random channels and, through the body-driven sync function channel(doc.ch); access(doc.grant_to, doc.grant_ch); '
          'role(doc.role_to, doc.role), random channel grants to the user or a role and role grants to the user), a first pull, then 20 seeded steps: '
          'document rewrite / move to other channels (incl. none) / change of the grants it carries / delete / re-create, user admin_channels, user '
          'admin_roles, role admin_channels (creating a missing role), role deletion, "loss and re-grant" pairs (user channels, user roles, role deleted '
          'and re-created, granting document deleted and re-written, optionally with a document write in the gap), and pulls at PRNG points (REST: limit '
-         'in {0,1,2}, paged pulls continue until an empty page; BLIP: one-shot subChanges with revocations, V3 in even and V4 in odd histories), each '
+         'in {0,1,2}, paged pulls continue until an empty page; BLIP: one-shot subChanges with revocations on a connection opened for the pull, V3 in even and V4 in odd histories), each '
          'pull resuming from the last position received and preceded by a wait for the change cache (state predicate), plus a final pull. Histories 0-5 '
          'are prefixed by scripted corners (role deletion; one channel from two sources losing one, then the other; loss and re-grant between two pulls '
          'with documents rewritten/moved in the gap; sync-function channel and role grants whose documents are deleted; revocation followed by '
@@ -26,7 +26,6 @@ CHECK = {
    'rest.backfill_rows': 153, 'rest.paged_pulls': 97, 'rest.pages': 334, 'rest.fetch_removal_stub': 13,
    'rest.pulls_after_access_loss': 15, 'rest.pulls_after_access_gain_on_unchanged_doc': 13, 'rest.pulls_after_role_deletion': 32,
    'rest.pulls_after_loss_and_regrant': 41, 'rest.pulls_after_losing_one_of_several_sources': 44, 'rest.docs_visible_through_several_sources': 289,
-   'rest.pulls_ending_with_low_sequence_token': 65,
    'blip.histories_completed': 27, 'blip.pulls_checked': 179, 'blip.model_channels_validated': 179,
    'blip.blip_clients_cbmobile_3': 15, 'blip.blip_clients_cbmobile_4': 15,
    'blip.revoked_rows': 66, 'blip.revocations_checked': 66, 'blip.removed_rows': 13, 'blip.deleted_rows': 19, 'blip.backfill_rows': 153,
@@ -41,7 +40,9 @@ CHECK = {
    'is an access-computation matter (C03) and sets the history aside as inconclusive',
    'histories are sequential: no write is concurrent with a pull, and the change cache has caught up before each pull',
    'the REST client fetches every listed non-deleted, non-revoked revision as the user (GET doc?rev=) and purges on a removal stub or 403/404; the BLIP '
-   'client is the repository\'s BlipTesterClient, whose local store is purged together with the replica so that it asks again for revisions it had to give up',
+   'client is the repository\'s BlipTesterClient, one client (connection) per pull so that the user is loaded at connect time as for a REST request; the client therefore asks for every listed revision',
+   'a user holding the all-documents channel also sees the documents of the other histories sharing the database: rows for them are ignored by the '
+   'client models',
    'a norev leaves the replica unchanged; a BLIP changes row flagged "removed" (removed from all the user\'s channels) purges without looking at the revision',
    'the BLIP client asks only for the last listed revision of a document when one changes message lists the document several times (the BlipTesterClient '
    'otherwise fails its own assertions on duplicate / older copies); rows it declines are applied as "already held"',
